@@ -89,6 +89,12 @@ class World:
         if same:
             self.pixel_links = [LinkSame(a, b) for a, b in zip(d0.pixel_component_ids, d1.pixel_component_ids)]
         self.active_links = set()
+        for k in plan.get('links0', []):
+            if k == 'pixel':
+                self.dc.add_link(self.pixel_links)
+            else:
+                self.dc.add_link(self.links[k])
+            self.active_links.add(k)
         # elementary states
         if 'leaves' in plan:
             self.leaves = plan['leaves'](self)
@@ -575,8 +581,13 @@ def run_history(R, case, ctab, check_fresh=True):
                 mops.append(['update', 2 if op[0] == 'update_components' else 3, tops, reach])
             elif op[0] == 'move_to':
                 sp, ob = W.target(op[1])
-                aff = sharers(W, leaves_under(ob))
-                mops.append(['bump', 4, [slot(l) for l in aff]])
+                try:
+                    cen = ob.center()
+                except Exception:
+                    cen = None
+                if cen is not None:         # otherwise apply_mutation does not call move_to at all
+                    aff = sharers(W, leaves_under(ob))
+                    mops.append(['bump', 4, [slot(l) for l in aff]])
             elif op[0] == 'setattr':
                 sp, ob = W.target(op[1])
                 if sp[0] == 'leaf':
@@ -585,9 +596,13 @@ def run_history(R, case, ctab, check_fresh=True):
                     for l in aff:
                         pending_setattr[id(l)] = True
             elif op[0] in ('add_link', 'remove_link'):
-                mops.append(['link', 6 if op[0] == 'add_link' else 7])
-                if op[1] == 'pixel':
-                    mops.append(['link', 8])
+                # adding a link that is active / removing one that is not does nothing at all
+                effective = ((op[1] not in W.active_links and (op[1] != 'pixel' or W.pixel_links is not None)) if op[0] == 'add_link'
+                             else op[1] in W.active_links)
+                if effective:
+                    mops.append(['link', 6 if op[0] == 'add_link' else 7])
+                    if op[1] == 'pixel':
+                        mops.append(['link', 8])
             elif op[0] == 'replace_state':
                 mops.append(['noop', 9])
             if listener:
@@ -602,7 +617,7 @@ def run_history(R, case, ctab, check_fresh=True):
             for l in W.leaf_objects():
                 slot(l)
             # everything except attribute assignment drops the caches in the repaired code
-            if op[0] in ('update_components', 'update_values', 'move_to', 'add_link', 'remove_link'):
+            if op[0] in ('update_components', 'update_values', 'move_to', 'add_link', 'remove_link') and mops:
                 if policy_clears_all(op[0]):
                     pending_setattr.clear()
             for m in mops:
@@ -832,7 +847,7 @@ def process(R, cases, ctab, stream):
         res['known'] = known
         kinds = [o[0] for o in case['ops']]
         muts = [k for k in kinds if k in MUTATIONS]
-        R.count((stream, case['seed'] if stream != 'exhaustive' else 0, case['i'] if stream != 'exhaustive' else 0, repr(case['ops'])),
+        R.count((stream, case['seed'] if not stream.startswith('exhaustive') else 0, case['i'] if not stream.startswith('exhaustive') else 0, repr(case['ops'])),
                 nontrivial=bool(muts) and any(k not in MUTATIONS for k in kinds), stream=stream,
                 history_len=min(len(kinds), 30) // 5 * 5, mutations=min(len(muts), 12),
                 outcome='oracle-fail' if res['oracle'] else ('known-finding' if res['known'] else 'ok'))
@@ -883,16 +898,52 @@ def exhaustive_plan():
         d.add_component(CategoricalComponent(np.array(list('abcaabca'))), 'c')
         d['z'] = d.id['x'] + d.id['y']
         return d
-    return {'ndim': 1, 'same_shape': True, 'leaves': leaves, 'make_d0': make_d0,
+    return {'ndim': 1, 'same_shape': True, 'leaves': leaves, 'make_d0': make_d0, 'links0': [0],
             'specs': [('and', ('leaf', 0), ('leaf', 1)), ('not', ('leaf', 2)), ('multi', [('leaf', 3), ('leaf', 4)])],
             'attached': [True, False, True]}
+
+
+def links_plan():
+    from glue.core import subset as S
+    base = exhaustive_plan()
+
+    def leaves(W):
+        d0, d1 = W.d0, W.d1
+        return [S.InequalitySubsetState(d0.id['x'], 1, operator.gt), S.InequalitySubsetState(d0.id['x'], 3, operator.lt),
+                S.InequalitySubsetState(d1.id['u'], 1, operator.ge), S.SliceSubsetState(d0, [slice(0, 3)]),
+                S.RangeSubsetState(0.5, 2.5, d0.id['y'])]
+    return dict(base, leaves=leaves,
+                specs=[('and', ('leaf', 0), ('leaf', 1)), ('multi', [('leaf', 4), ('leaf', 2)]), ('not', ('leaf', 3)), ('or', ('leaf', 2), ('leaf', 0))],
+                attached=[True, True, False, False])
+
+
+def stream_links(R, ctab):
+    plan = links_plan()
+    alphabet = [('eval', ('tree', 0, 0), 1, 0, 'data', FKW),        # (x>1)&(x<3) on the OTHER dataset: needs x <-> u
+                ('eval', ('tree', 1, 0), 0, 0, 'subset', FKW),      # multi-or(range(y), u >= 1) on d0: needs the link for u
+                ('eval', ('tree', 2, 0), 1, 0, 'state', FPOS),      # ~slice(d0) on d1: depends on the datasets being pixel aligned
+                ('eval', ('tree', 3, 0), 0, 0, 'data', FKW),        # (u>=1)|(x>1) on d0
+                ('remove_link', 0), ('add_link', 0), ('add_link', 'pixel'), ('remove_link', 'pixel'), ('update_components', 1, 5)]
+    L = R.pick(3, 4)
+    hs = []
+    for n in range(1, L + 1):
+        for h in itertools.product(alphabet, repeat=n):
+            if h[-1][0] == 'eval':
+                hs.append(h)
+    cases = [{'seed': 0, 'stream': 'exhaustive-links', 'i': 0, 'plan': plan, 'ops': list(h), 'listener': []} for h in hs]
+    for k in range(0, len(cases), 300):
+        process(R, cases[k:k + 300], ctab, 'exhaustive-links')
+    R.stream('exhaustive-links', cases=len(cases), exhaustive=True,
+             bound='all %d histories of length <= %d that end in an evaluation over 4 evaluations of selections that need a link (a selection of d evaluated on e, '
+                   'a multi-or with an attribute of e evaluated on d, ~slice(d) on e, an or of both) and 5 mutations (remove / add the identity link, add / remove pixel '
+                   'links, update_components on e); the identity link is active at the start' % (len(cases), L))
 
 
 def stream_exhaustive(R, ctab):
     plan = exhaustive_plan()
     alphabet = [('eval', ('tree', 0, 0), 0, 0, 'data', FKW), ('eval', ('tree', 1, 0), 0, 0, 'state', FPOS), ('eval', ('tree', 2, 0), 0, 0, 'subset', FKW),
-                ('update_components', 0, 1), ('update_values', 0, 2, True), ('move_to', ('tree', 1, 0), 1.0), ('move_to', ('tree', 2, 0), 1.0),
-                ('setattr', ('tree', 0, 1), 0), ('add_link', 0), ('remove_link', 0)]
+                ('update_components', 0, 1), ('update_values', 0, 2, True), ('move_to', ('tree', 1, 0), 1.0), ('move_to', ('tree', 2, 1), 1.0),
+                ('setattr', ('tree', 0, 1), 0), ('remove_link', 0), ('add_link', 0)]
     L = R.pick(3, 4)
     hs = []
     for n in range(1, L + 1):
@@ -910,11 +961,11 @@ def stream_exhaustive(R, ctab):
     R.stream('exhaustive', cases=len(cases), exhaustive=len(cases) == full,
              bound='%d of the %d histories of length <= %d that end in an evaluation, over 3 evaluations ((x>1)&(x<3) attached, ~range free, '
                    'multi-or(roi, cross-dataset inequality) attached) and 7 mutations (update_components, update_values_from_data with a new shape, move_to on two '
-                   'selections, a setter inside a composite, add/remove link); a hub listener evaluates during every values update' % (len(cases), full, L))
+                   'selections, a setter inside a composite, remove/add the identity link, active at the start); a hub listener evaluates during every values update' % (len(cases), full, L))
 
 
 def stream_random(R, ctab):
-    n = R.pick(260, 3000)
+    n = R.pick(260, 2500)
     cases = []
     for i in range(n):
         rng = C1.case_rng(R.seed, 'c05-random', i, 'ops')
@@ -963,7 +1014,7 @@ def stream_policy(R, ctab):
 
 # ---- histogram viewer layer state
 def stream_viewer(R):
-    n = R.pick(150, 1500)
+    n = R.pick(150, 800)
     done = 0
     try:
         from glue.viewers.histogram.viewer import SimpleHistogramViewer
@@ -987,17 +1038,20 @@ def stream_viewer(R):
         dc = DataCollection([d])
         app = Application(dc)
         g = dc.new_subset_group(subset_state=(d.id['x'] > 1) & (d.id['y'] < 3))
-        v = app.new_data_viewer(SimpleHistogramViewer)
-        v.add_data(d)
-        v.state.x_att = d.id['x']
-        v.state.hist_x_min, v.state.hist_x_max, v.state.hist_n_bin = -0.5, 6.5, 7
+        # the fresh construction: the objects are mutated first, the viewer is created on the mutated objects and
+        # computes every histogram for the first time
         for m in muts:
             if m[0] == 'update':
                 r2 = C1.case_rng(seed, 'viewer', i, 'u', m[1])
                 d.update_components({d.id['x']: np.array([float(r2.randint(0, 6)) for _ in range(n0)])})
             elif m[0] == 'state':
                 g.subset_state = (d.id['x'] > m[1]) | (d.id['y'] > 2)
-            elif m[0] == 'bins':
+        v = app.new_data_viewer(SimpleHistogramViewer)
+        v.add_data(d)
+        v.state.x_att = d.id['x']
+        v.state.hist_x_min, v.state.hist_x_max, v.state.hist_n_bin = -0.5, 6.5, 7
+        for m in muts:
+            if m[0] == 'bins':
                 v.state.hist_n_bin = m[1]
             elif m[0] == 'att':
                 v.state.x_att = d.id[m[1]]
@@ -1071,6 +1125,7 @@ def run(R):
     ctab = class_table()
     stream_policy(R, ctab)
     stream_exhaustive(R, ctab)
+    stream_links(R, ctab)
     stream_random(R, ctab)
     stream_viewer(R)
     C1.clear_all_caches()
@@ -1080,12 +1135,14 @@ def replay(R, case):
     ctab = class_table()
     stream_policy(R, ctab)
     out = {'case': case}
-    if case.get('stream') in ('exhaustive', 'c05-random'):
+    if case.get('stream') in ('exhaustive', 'exhaustive-links', 'c05-random'):
         c = dict(case)
         c['ops'] = [tuple(_tuplify(o)) for o in case['ops']]
         c['listener'] = [tuple(_tuplify(o)) for o in case.get('listener', [])]
         if case['stream'] == 'exhaustive':
             c['plan'] = exhaustive_plan()
+        if case['stream'] == 'exhaustive-links':
+            c['plan'] = links_plan()
         res = run_history(R, c, ctab)
         out['oracle'] = res['oracle']
         out['known_finding_candidates'] = [k[0] for k in res['known']]
